@@ -1,6 +1,9 @@
 pub mod c03;
 pub mod c04;
 pub mod c05;
+pub mod c07;
+pub mod c08;
+pub mod c11;
 pub mod c13;
 pub mod c14;
 
@@ -14,6 +17,9 @@ pub fn run(ctx: &Ctx, replay: Option<&J>) -> Option<CheckResult> {
         "C04" => c04::run(ctx, replay),
         "C05" => c05::run(ctx, replay, false),
         "C06" => c05::run(ctx, replay, true),
+        "C07" => c07::run(ctx, replay),
+        "C08" => c08::run(ctx, replay),
+        "C11" => c11::run(ctx, replay),
         "C13" => c13::run(ctx, replay),
         "C14" => c14::run(ctx, replay),
         _ => return None,
